@@ -266,6 +266,14 @@ class AmpExecutor(readfile.ReadFileExecutor):
             for (s_, _v) in res:
                 s_.ghost.pop("c12_count_is_a_size", None)
             return res
+        # round 8: a small guard method (no loop, no value returned, raises on a condition over its integer arguments, stores nothing)
+        # is executed in place -- the typed havoc below would forget the bound it establishes on a count passed to it
+        if c12_7zheader.guard_method(self.module, q) and self.inline_depth < 2:
+            snap = st.fork()
+            try:
+                return self.inline_repo(st, self.module.rel, q, [obj] + list(args), kwargs, node)
+            except (Unsupported, PathLimit):
+                st = snap
         r = c12_7zheader.method_call(self, st, VFunc("repo", self.module.rel, q), [obj] + list(args), kwargs, node)
         if r is not None:
             return r
@@ -445,8 +453,8 @@ class AmpExecutor(readfile.ReadFileExecutor):
                     nt = ops.int_term(n) if isinstance(n, VInt) else z3.Int(fresh_name("int_of_unknown"))
                     srcs, unknown_src = _attr_sources(nt)
                     goal = nt <= REPEAT_CAP
+                    from contracts import c12_7zheader
                     if self.header is not None:
-                        from contracts import c12_7zheader
                         goal = c12_7zheader.bound_goal(self, nt)
                     if unknown_src and not srcs:
                         # a count without input provenance in the model: decide on the real AST whether it is made of sizes of
@@ -461,8 +469,8 @@ class AmpExecutor(readfile.ReadFileExecutor):
                                 unknown_src = []
                         except RecursionError:
                             pass
-                    if unknown_src:
-                        goal = z3.Or(goal, NOTDEF)      # a count of unknown origin (result of an unmodelled call, a joined value)
+                    if unknown_src or (self.header is not None and c12_7zheader.handed_out(st, nt)):
+                        goal = z3.Or(goal, NOTDEF)      # a count of unknown origin (result of an unmodelled call, a joined value), or one an unmodelled method has seen (it may have refused it)
                     key = "repeat-site" + (f"[{'+'.join(sorted(srcs))}]" if srcs else "")
                     # provisional label with the source position; `post_report` turns positions into ordinals per key
                     self.add_vc("amp-bounded", f"{key}@{getattr(node, 'lineno', 0):06d}:{getattr(node, 'col_offset', 0):04d}", st.pc, goal,
